@@ -60,7 +60,7 @@ int snoopy_datasource_env_all (char * const resultBuf, size_t resultBufSize, __a
     int resultSize = 0; // Current size of message to be returned back - does not include trailing null character
 
     // Loop through all environmental variables
-    char *envItem = *environ; // Get first environmental variable
+    char *envItem = (NULL != environ) ? *environ : NULL; // Get first environmental variable (environ itself is NULL after clearenv())
     int i = 0;
     while (NULL != envItem) {
         i++;
